@@ -433,6 +433,23 @@ where
             })
     }
 
+    /// Consume the trailing bytes of a value
+    /// whose declared length is not a multiple of its unit size,
+    /// so that exactly `len` bytes are taken from the source
+    /// (as the position accounting assumes).
+    fn skip_value_remainder(&mut self, len: usize, unit: usize) -> Result<()> {
+        let rem = len % unit;
+        if rem != 0 {
+            let mut buf = [0u8; 8];
+            self.from
+                .read_exact(&mut buf[..rem])
+                .context(ReadValueDataSnafu {
+                    position: self.position,
+                })?;
+        }
+        Ok(())
+    }
+
     fn read_value_tag(&mut self, header: &DataElementHeader) -> Result<PrimitiveValue> {
         let len = self.require_known_length(header)?;
 
@@ -447,6 +464,7 @@ where
                     })
             })
             .collect();
+        self.skip_value_remainder(len, 4)?;
         self.position += len as u64;
         Ok(PrimitiveValue::Tags(parts?))
     }
@@ -539,6 +557,7 @@ where
                 position: self.position,
             })?;
 
+        self.skip_value_remainder(len, 2)?;
         self.position += len as u64;
         Ok(PrimitiveValue::I16(vec))
     }
@@ -553,6 +572,7 @@ where
             .context(ReadValueDataSnafu {
                 position: self.position,
             })?;
+        self.skip_value_remainder(len, 4)?;
         self.position += len as u64;
         Ok(PrimitiveValue::F32(vec))
     }
@@ -746,6 +766,7 @@ where
             .context(ReadValueDataSnafu {
                 position: self.position,
             })?;
+        self.skip_value_remainder(len, 8)?;
         self.position += len as u64;
         Ok(PrimitiveValue::F64(vec))
     }
@@ -761,6 +782,7 @@ where
             .context(ReadValueDataSnafu {
                 position: self.position,
             })?;
+        self.skip_value_remainder(len, 4)?;
         self.position += len as u64;
         Ok(PrimitiveValue::U32(vec))
     }
@@ -790,6 +812,7 @@ where
                 position: self.position,
             })?;
 
+        self.skip_value_remainder(len, 2)?;
         self.position += len as u64;
 
         if header.tag == Tag(0x0028, 0x0103) {
@@ -811,6 +834,7 @@ where
             .context(ReadValueDataSnafu {
                 position: self.position,
             })?;
+        self.skip_value_remainder(len, 8)?;
         self.position += len as u64;
         Ok(PrimitiveValue::U64(vec))
     }
@@ -826,6 +850,7 @@ where
             .context(ReadValueDataSnafu {
                 position: self.position,
             })?;
+        self.skip_value_remainder(len, 4)?;
         self.position += len as u64;
         Ok(PrimitiveValue::I32(vec))
     }
@@ -841,6 +866,7 @@ where
             .context(ReadValueDataSnafu {
                 position: self.position,
             })?;
+        self.skip_value_remainder(len, 8)?;
         self.position += len as u64;
         Ok(PrimitiveValue::I64(vec))
     }
